@@ -173,6 +173,7 @@ func main() {
 	gridIngest(e.add)
 	pairsIngest(e.add)
 	metaOptsIngest(e.add)
+	longFamilies(e.add)
 	gridSub(e.add, o.Thorough())
 	gridCli(e.add)
 
